@@ -15,7 +15,9 @@ def run(prop, tier):
     out = lib.Outcome(prop, tier, "model_checking")
     states = transitions = replayed = 0
     per, samples = {}, []
-    cfgs = ["MC_ZyScope_4.cfg", "MC_ZyScope_5.cfg"] + (["MC_ZyScope_6.cfg"] if tier == "thorough" else [])
+    cfgs = ["MC_ZyScope_4.cfg", "MC_ZyScope_5.cfg", "MC_ZyScope_b6.cfg"] + (["MC_ZyScope_6.cfg", "MC_ZyScope_b7.cfg"] if tier == "thorough" else [])
+    # alpha-invariance of the rule set with mobile `that` bindings (no replay: an invariant of the model)
+    lib.run_tlc("ZyScope.tla", "MC_ZyScope_b5a.cfg", os.path.join(lib.WORK, "scope", "b5a.out"), workers=12, coverage=False, timeout=3000)
     for cfg in cfgs:
         tout = os.path.join(W, cfg + ".out")
         res = lib.run_tlc("ZyScope.tla", cfg, tout, workers=12, coverage=False, timeout=7200)
